@@ -1,7 +1,7 @@
 (** Correspondence check for C01. *)
 From Coq Require Import String List NArith ZArith Bool.
 From Fabio Require Import Lib.Outcome Lib.Bytes Lib.Verdict Model.WtF64 Model.TableCmd Model.RouteText Model.RouteCmd
-     Model.Consul Model.Watch Model.ConsulSpec Model.RegistryTable.
+     Model.Consul Model.Watch Model.ConsulSpec Model.RegistryTable Model.OperatorText.
 Import ListNotations.
 Local Open Scope N_scope.
 
@@ -179,7 +179,51 @@ Inductive case :=
    watchKV) on top: the table installed before ([prev]) and after ([impl]) the delivery *)
 | CE2EM (env : env_t) (prefix : str) (urls : list (str * option str)) (badglobs : list str)
         (status : list str) (strict : bool) (checks : list hcheck) (rcat : list rentry)
-        (mtext : str) (prev impl : tbl).
+        (mtext : str) (prev impl : tbl)
+(* the same with the operator's text given as the COMMANDS it was written from ([ops], Model/
+   OperatorText.v; the harness renders them on its own, stores the text in the fake KV store and
+   the real watchKV pushes [mtext]): the spec side reads the expected table off the commands --
+   no parser involved *)
+| CE2EO (env : env_t) (prefix : str) (urls : list (str * option str)) (badglobs : list str)
+        (status : list str) (strict : bool) (checks : list hcheck) (rcat : list rentry)
+        (ops : list opcmd) (mtext : str) (prev impl : tbl).
+
+(* the model of one delivery through watchBackend: the combined text through NewTable; a rejected
+   text keeps the previous table *)
+Definition installed_model (canon : str -> option str) (gl : str -> bool) (env : env_t) (prefix : str)
+           (status : list str) (strict : bool) (checks : list hcheck) (rcat : list rentry) (mtext : str) (prev : tbl) : tbl :=
+  match registry_config pweight_dec canon gl env prefix status strict checks rcat with
+  | Ok t => match new_table pweight_dec canon gl (next_text t mtext) with
+            | Ok tb => obs_table tb
+            | _ => prev
+            end
+  | _ => prev
+  end.
+
+(* the spec for an arbitrary manual text (C01_svc_table_any_manual / C01_svc_table_with_manual_adds):
+   unless the table was left as it was, every target is a routed intent's or a manual 'route add''s
+   - del and weight bring nothing in - and for a manual text of adds only nothing is missing *)
+Definition manual_text_spec (canon : str -> option str) (gl : str -> bool) (env : env_t) (prefix : str)
+           (status : list str) (strict : bool) (checks : list hcheck) (rcat : list rentry) (mtext : str) (prev impl : tbl) : bool :=
+  let exp := expected_targets pweight_dec canon gl env prefix status strict checks rcat in
+  let dm := match parse pweight_dec mtext with Ok ds => ds | _ => [] end in
+  let adds := flat_map (fun d => match d_cmd d, canon (d_dst d) with
+                                 | CmdAdd, Some u => [(lower (fst (hostpath (d_src d))), snd (hostpath (d_src d)), d_svc d, u)]
+                                 | _, _ => []
+                                 end) dm in
+  let adds_only := forallb (fun d => match d_cmd d with CmdAdd => true | _ => false end) dm in
+  tbl_eqb impl prev
+  || (tbl_subset impl (exp ++ adds) && (negb adds_only || tbl_subset (exp ++ adds) impl)).
+
+(* C01_active_table_operator, read off the registry state and the operator's commands: the
+   healthy instances' advertised targets with the commands applied on top, as (host, path,
+   service, URL) *)
+Definition core_tgt (c : ocore) : tgt := (oc_host c, oc_path c, oc_svc c, oc_url c).
+Definition expected_with_ops (canon : str -> option str) (env : env_t) (prefix : str)
+           (status : list str) (strict : bool) (checks : list hcheck) (rcat : list rentry) (ops : list opcmd) : tbl :=
+  let exp0 := flat_map (fun r => if inst_healthy_b status strict checks r
+                                 then flat_map (intent_core canon) (intents env prefix (r_reg r)) else []) rcat in
+  map core_tgt (apply_ops canon exp0 ops).
 
 Definition check_case (c : case) : N :=
   match c with
@@ -288,4 +332,22 @@ Definition check_case (c : case) : N :=
       let spec := tbl_eqb impl prev
                   || (tbl_subset impl (exp ++ adds) && (negb adds_only || tbl_subset (exp ++ adds) impl)) in
       verdict same spec None (negb (tbl_eqb impl prev) && negb (Nat.eqb (length dm) 0))
+  | CE2EO env prefix urls bad status strict checks rcat ops mtext prev impl =>
+      let canon := canon_of urls in
+      let gl := glob_of bad in
+      (* the text the real watchKV pushed is the text of the commands (a mismatch is a broken
+         correspondence, never a silently weaker check) *)
+      let text_ok := beq mtext (operator_text ops) in
+      let m := installed_model canon gl env prefix status strict checks rcat mtext prev in
+      let same := text_ok && tbl_eqb impl m in
+      (* every registration expressible, every command expressible, no 'route weight' (which is
+         rejected when nothing matches): the combined text is accepted -- the table is NOT left as
+         it was -- and holds exactly the healthy instances' targets with the commands applied on
+         top; otherwise the spec for arbitrary manual texts *)
+      let all_expr := forallb (fun r => forallb (intent_expressible pweight_dec canon gl) (intents env prefix (r_reg r))) rcat in
+      let ops_ok := forallb (op_expressible pweight_dec canon gl) ops && forallb (fun o => negb (is_weight_op o)) ops in
+      let exp := expected_with_ops canon env prefix status strict checks rcat ops in
+      let spec := if all_expr && ops_ok then tbl_subset impl exp && tbl_subset exp impl
+                  else manual_text_spec canon gl env prefix status strict checks rcat mtext prev impl in
+      verdict same spec None (negb (Nat.eqb (length ops) 0))
   end.
